@@ -102,6 +102,8 @@ def run_property(pid: str, tier: str = "quick", seed: int = 0) -> int:
     EVID.mkdir(exist_ok=True)
     REPLAYS.mkdir(exist_ok=True)
     evidence_path = EVID / f"{pid}.json"
+    for stale in REPLAYS.glob(f"{pid}_*.json"):
+        stale.unlink()
     checker_cmd = f"./check {pid} --tier {tier}"
     ev = {
         "property_id": pid, "tier": tier, "seed": seed, "level": "proof",
@@ -152,9 +154,9 @@ def run_property(pid: str, tier: str = "quick", seed: int = 0) -> int:
         for tgt in spec.targets:
             qual, nested = (tgt, None) if isinstance(tgt, str) else tgt
             label = qual + ("." + nested if nested else "")
-            c = E.contracts.get(label) or E.contracts[qual]
+            c = getattr(spec, "event_contracts", {}).get(label) or E.contracts.get(label) or E.contracts[qual]
             canaries["checked"] += 1
-            if not E.canary(label if label in E.contracts else qual, c):
+            if not E.canary(label, c):
                 canaries["vacuous"].append(label)
             before = len(E.obligations)
             npaths, nob = E.verify(qual, c, nested)
@@ -186,6 +188,11 @@ def run_property(pid: str, tier: str = "quick", seed: int = 0) -> int:
             syn_fail.append((name, detail))
 
     obs = list(E.obligations.values())
+    keep = getattr(spec, "keep", None)
+    if keep is not None:
+        dropped = [ob for ob in obs if not keep(ob.name)]
+        obs = [ob for ob in obs if keep(ob.name)]
+        ev["coverage"]["obligations_of_other_properties_not_counted"] = len(dropped)
     if canaries["vacuous"]:
         return finish(3, f"vacuous precondition (canary unsat) for {canaries['vacuous']}", {"functions": functions})
     if len(obs) + len(spec.syntactic) == 0:
